@@ -782,8 +782,146 @@ def r8_reader_prefix_is_text(repo=None):
     return r
 
 
+def r10_writer_opens_the_name_the_reader_looks_for(repo=None):
+    """'A sample lies in the file <prefix>@<T>.h5 ... and the reader looks for it in exactly that file': the path handed to
+    h5py.File in the writer's generator is, under every definition that reaches the call, join(<sub-directory>, <the formatted
+    base name>).  A staging name (a prefix put in front of the base name, renamed after the loop) puts the samples into a file
+    no reader opens until the rename runs - and the rename is code behind a `yield`, which is never reached when the consumer of
+    the generator stops early (an error on a later sample of the same write call)."""
+    r = Rule("C13.R10", "the writer opens the file under the name the reader computes (no staging name in front of the formatted base name)")
+    ro = dmdroles.roles(repo)
+    m = ro.m
+    wf = ro.gen_view.fn()
+    defs = {}
+    for n in ast.walk(wf):
+        if isinstance(n, ast.Assign) and len(n.targets) == 1 and isinstance(n.targets[0], ast.Name):
+            defs.setdefault(n.targets[0].id, []).append(n.value)
+
+    def is_fmt(e):
+        return isinstance(e, ast.BinOp) and isinstance(e.op, ast.Mod) and "@" in str(pyfront.const(e.left) or (
+            m.module_assign(e.left.id).value if isinstance(e.left, ast.Name) and isinstance(m.module_assign(e.left.id), ast.Constant) else ""))
+
+    def base_forms(e, depth=0, seen=()):
+        """forms of the last path component: 'FMT' | ('PREFIX', text) | None (unknown)"""
+        if depth > 6:
+            return {None}
+        if isinstance(e, ast.Name):
+            if e.id in seen or e.id not in defs:
+                return {None}
+            out = set()
+            for v in defs[e.id]:
+                out |= base_forms(v, depth + 1, seen + (e.id,))
+            return out
+        if isinstance(e, ast.IfExp):
+            return base_forms(e.body, depth + 1, seen) | base_forms(e.orelse, depth + 1, seen)
+        if isinstance(e, ast.Call) and pyfront.call_name(e) == "os.path.join" and e.args:
+            return base_forms(e.args[-1], depth + 1, seen)
+        if is_fmt(e):
+            return {"FMT"}
+        if isinstance(e, ast.BinOp) and isinstance(e.op, ast.Add):
+            l, rgt = e.left, e.right
+            if isinstance(l, ast.Constant) and isinstance(l.value, str) and "/" not in l.value and "FMT" in base_forms(rgt, depth + 1, seen):
+                return {("PREFIX", l.value)}
+            return {None}
+        if isinstance(e, ast.JoinedStr):
+            return {None}
+        return {None}
+    opens = [c for c in ast.walk(wf) if isinstance(c, ast.Call) and pyfront.call_name(c) == "h5py.File" and c.args]
+    if not opens:
+        raise AnalysisError("%s: h5py.File call not found" % ro.gen)
+    for c in opens:
+        forms = base_forms(c.args[0])
+        site = "%s:%s %s `%s`" % (m.rel, c.lineno, ro.gen, norm(ast.unparse(c))[:60])
+        pre = sorted(f_[1] for f_ in forms if isinstance(f_, tuple))
+        if pre:
+            r.violation(m.rel, ro.gen, norm(ast.unparse(c))[:80], "under one definition of `%s` the file is opened as %r + <formatted name>: the "
+                        "samples are written into a file the reader does not look for (it computes <prefix>@<T>.h5), and the name is "
+                        "corrected only by code after the generator's last `yield` - a write() call that stops early (a later sample "
+                        "fails) leaves the samples already accepted where no reader finds them" % (norm(ast.unparse(c.args[0]))[:30], pre[0]),
+                        line=c.lineno)
+        elif forms == {"FMT"}:
+            r.ok(site, "every definition of the opened path ends in the formatted base name")
+        else:
+            raise AnalysisError("%s: how the path `%s` handed to h5py.File is built was not recognised" % (ro.gen, norm(ast.unparse(c.args[0]))[:50]))
+    r.guard(1)
+    return r
+
+
+MUTATORS = ("update", "append", "add", "setdefault", "pop", "clear", "extend", "insert", "remove", "popitem", "discard", "appendleft", "sort", "reverse")
+
+
+def r9_reader_file_list_has_no_memory(repo=None, rid="C13.R9", view="filelist"):
+    """'the reader looks for it in exactly that file': *that file*, as it is on disk when the read is made.  Which candidate files a
+    read finds must be a function of the query and of the directory - not of what earlier reads of the same reader object saw.
+    Who-may-write rule: an attribute of the reader that the candidate-list method reads (its flat view, helpers included) is
+    stored or mutated only by the constructor.  A listing or a "complete sub-directory" set remembered across reads hides a
+    file that an out-of-order write creates later in a sub-directory already remembered."""
+    r = Rule(rid, "the reader's list of candidate files depends on no attribute that a query changes (no listing remembered across reads)" if view == "filelist"
+             else "what the reader takes from a file depends on no attribute that a query changes (no file content remembered across reads)")
+    ro = dmdroles.roles(repo)
+    m = ro.m
+    f = ro.filelist_view.fn() if view == "filelist" else ro.add_view.fn()
+    vname = ro.filelist if view == "filelist" else ro.add
+    read_attrs = {}
+    for n in ast.walk(f):
+        if isinstance(n, ast.Attribute) and pyfront.dotted(n.value) == "self":
+            read_attrs.setdefault(n.attr, n)
+    writers = {}
+    # methods a query can reach: everything called (self.<m>) from a public method other than the constructor; a private helper
+    # that only the constructor calls is part of the construction
+    meths = {q[len(R) + 1:]: fn for q, fn in m.functions.items() if q.startswith(R + ".") and "<locals>" not in q and "." not in q[len(R) + 1:]}
+    reach = {n for n in meths if n != "__init__" and (not n.startswith("_") or (n.startswith("__") and n.endswith("__")))}
+    work = list(reach)
+    while work:
+        n = work.pop()
+        for c in ast.walk(meths[n]):
+            if isinstance(c, ast.Attribute) and pyfront.dotted(c.value) in ("self", "cls") and c.attr in meths and c.attr not in reach and c.attr != "__init__":
+                reach.add(c.attr)
+                work.append(c.attr)
+    for q, fn in m.functions.items():
+        if not q.startswith(R + ".") or "<locals>" in q or q == R + ".__init__" or q[len(R) + 1:] not in reach:
+            continue
+        for n in ast.walk(fn):
+            a = None
+            if isinstance(n, ast.Attribute) and isinstance(n.ctx, (ast.Store, ast.Del)) and pyfront.dotted(n.value) == "self":
+                a = n.attr
+            elif isinstance(n, ast.Subscript) and isinstance(n.ctx, (ast.Store, ast.Del)) and isinstance(n.value, ast.Attribute) \
+                    and pyfront.dotted(n.value.value) == "self":
+                a = n.value.attr
+            elif isinstance(n, ast.Call) and isinstance(n.func, ast.Attribute) and n.func.attr in MUTATORS and isinstance(n.func.value, ast.Attribute) \
+                    and pyfront.dotted(n.func.value.value) == "self":
+                a = n.func.value.attr
+            elif isinstance(n, ast.Call) and pyfront.call_name(n) in ("setattr", "delattr") and n.args and pyfront.dotted(n.args[0]) == "self":
+                if len(n.args) > 1 and isinstance(n.args[1], ast.Constant):
+                    a = n.args[1].value
+                else:
+                    raise AnalysisError("%s: %s(self, <computed name>): which attribute a query changes is not decided" % (q, pyfront.call_name(n)))
+            if a is not None:
+                writers.setdefault(a, []).append((q, n))
+    if len(read_attrs) < (3 if view == "filelist" else 1):
+        raise AnalysisError("%s: reads %d attributes of the reader, %s confirmed on the reference tree" % (vname, len(read_attrs), "5" if view == "filelist" else "1"))
+    for a in sorted(read_attrs):
+        site = "%s:%s %s self.%s" % (m.rel, read_attrs[a].lineno, vname, a)
+        if a in writers and a not in meths:
+            q, n = writers[a][0]
+            if view == "filelist":
+                r.violation(m.rel, q, norm(ast.unparse(n))[:80], "`self.%s`, which the candidate-list method %s reads, is changed by a query: the files a "
+                            "read consults then depend on what earlier reads of this reader object saw - a file created later (an "
+                            "out-of-order or late write) in a sub-directory already remembered is never looked for, although a fresh reader "
+                            "finds it" % (a, ro.filelist_name), line=n.lineno)
+            else:
+                r.violation(m.rel, q, norm(ast.unparse(n))[:80], "`self.%s`, which the per-file reading method %s reads, is changed by a query: what a "
+                            "read returns from a file then depends on what an earlier read of this reader object saw in it - samples "
+                            "written to the file afterwards are missing (and a forward fill returns an older value), although a fresh "
+                            "reader returns them" % (a, ro.add_name), line=n.lineno)
+        elif a not in meths:
+            r.ok(site, "stored only by the constructor")
+    r.guard(3 if view == "filelist" else 1)
+    return r
+
+
 def rules(repo=None):
-    return [lambda: r8_reader_prefix_is_text(repo), lambda: r7_reader_probes_each_subdir_with_its_own_times(repo), lambda: r6_joining_writer_refuses_other_parameters(repo), lambda: r1_exact_placement(repo), lambda: r2_one_formula(repo), lambda: r3_format_agreement(repo),
+    return [lambda: r10_writer_opens_the_name_the_reader_looks_for(repo), lambda: r9_reader_file_list_has_no_memory(repo), lambda: r8_reader_prefix_is_text(repo), lambda: r7_reader_probes_each_subdir_with_its_own_times(repo), lambda: r6_joining_writer_refuses_other_parameters(repo), lambda: r1_exact_placement(repo), lambda: r2_one_formula(repo), lambda: r3_format_agreement(repo),
             lambda: r4_subdir_per_file(repo), lambda: r5_groups_are_groupby_groups(repo)]
 
 
@@ -803,7 +941,9 @@ EXPLANATION = (
     "cadences, prefix), and the constructor reaches it whenever a properties file is found. R7: in the reader's candidate"
     ' loop a value in the backward slice of the probed names that is carried across iterations must be updated on every '
     "path through the loop body. R8: no normal exit of the reader's constructor is reached from the raw store of the "
-    'file-name prefix without the store that decodes it.')
+    'file-name prefix without the store that decodes it. R9: who-may-write - an attribute of the reader that the candidate-list '
+    'method reads is stored or mutated only by the constructor (and private helpers only it calls): no listing remembered across reads. '
+    'R10: every definition of the path handed to h5py.File in the writer ends in the formatted base name (no staging prefix).')
 TECHNIQUE = ("Python ast; float-taint dataflow; symbolic straight-line evaluation + canonical form of nested floor divisions "
              "(writer/reader sibling agreement); CFG must-pass over the backward slice; regular-language algebra")
 ASSUMPTIONS = ["Python int arithmetic is exact; floor(floor(x/a)/b) = floor(x/(a*b)) for positive integers",
